@@ -504,3 +504,53 @@ func TestC09_Mgrx(t *testing.T) {
 		sp.Class("mgrx_ending_" + ending)
 	})
 }
+
+// TestC01_KnownCrashAfterCompleteSent is the plain regression demonstration of the
+// known finding C01/responder-crash-between-complete-send-and-record: the responder
+// sends its final Complete and only then records it; a process that stops in
+// between comes back with the channel still Ongoing although the initiator was told
+// that the transfer is complete.
+func TestC01_KnownCrashAfterCompleteSent(t *testing.T) {
+	sp := stats.For("C01")
+	reproduced := 0
+	for _, role := range []string{"receivePush", "receivePull"} {
+		ft := &plainT{t: t}
+		r := newMgrRig(ft, gen.Peer(0), dbl.NewRecDatastore(), "T/a")
+		v := datatransfer.TypedVoucher{Type: "T/a", Voucher: basicnode.NewString("v")}
+		c, err := r.open(role, gen.Peer(1), 977, v, simpleCid(7), strNode("sel"), false)
+		if err != nil {
+			t.Fatalf("HARNESS open: %v", err)
+		}
+		r.toOngoing(c)
+		_, _ = r.report(c, 1, 100, true)
+		r.syncAll()
+		sentComplete := false
+		r.net.OnSend = func(s dbl.Sent) {
+			if resp, ok := s.Msg.(datatransfer.Response); ok && !s.Msg.IsRequest() && resp.IsComplete() && !resp.IsPaused() && s.Err == nil && !sentComplete {
+				sentComplete = true
+				// the process dies here: the message is out, the Complete event is not recorded yet
+				r.stop()
+			}
+		}
+		_ = r.ev().OnChannelCompleted(c.chid, nil)
+		r.net.OnSend = nil
+		r.start([]datatransfer.TypeIdentifier{"T/a"})
+		st, ok := r.settle(c.chid)
+		status := "missing"
+		if st != nil {
+			status = datatransfer.Statuses[st.Status()]
+		}
+		if sentComplete && (!ok || st == nil || st.Status() != datatransfer.Completed) {
+			reproduced++
+			fmt.Printf("KNOWN-FINDING-REPRODUCED C01/responder-crash-between-complete-send-and-record: %s responder sent its final Complete, the process was replaced before the event was recorded, the channel is %s after restart\n", role, status)
+		}
+		r.stop()
+	}
+	sp.ClassN("known_finding_reproduced_crash_after_complete_sent", reproduced)
+}
+
+// plainT adapts *testing.T to the rig's fataler.
+type plainT struct{ t *testing.T }
+
+func (p *plainT) Fatalf(f string, a ...any) { p.t.Fatalf(f, a...) }
+func (p *plainT) Helper()                   {}
